@@ -3,3 +3,4 @@ INVARIANTS TypeOK AtMostBurstPerWindow
 PROPERTIES SourcesIndependent RepliesPaidFor
 CHECK_DEADLOCK FALSE
 CONSTANT DMaxT = 3
+CONSTANT Devs = {}
